@@ -511,10 +511,10 @@ C13_CONTEXTS = [
 ]
 
 
-def instance_lookup(F):
+def instance_lookup(F, entry="visitInstance"):
     """visitInstance: (fn, aliases, instance parameter name, name of the local holding the looked-up parameter, name of
     the local holding its argument, the lookup call)"""
-    fn = _fn(F, "visitInstance")
+    fn = G.normalized(_fn(F, entry))       # the argument loop may live in a helper shared with visitInstanceLine
     al = G.collect_aliases(fn)
     # which locals are "the argument" and "its parameter": the value and the key of the lookup in instance.mapping
     inst = fn["params"][0]["name"]
@@ -1485,3 +1485,36 @@ def run_fieldgate(chk, F, rid="R-FIELDGATE"):
            "StatementBuilder::struct_field does not refuse every field type that is not mutable (tests: %s): "
            "`struct { const int a[2]; int b; } s;` is accepted and every field of s is then read-only, because a record "
            "is mutable only if all its fields are" % ", ".join(seen), "%s:%s" % (fn["file"], fn["line"]))
+
+
+# ---------------------------------------------------------------------------------------------- R-ARGSIBLING
+def run_argsibling(chk, F, rid="R-ARGSIBLING"):
+    """instance_line_t is an instance_t: DocumentBuilder::instance_name_end binds the parameters of the template to the
+    arguments written on an LSC instance line (`A(x)`) with the same add_parameters as an instantiation.  The type checker
+    visited instantiations only (found by a defect-hunt sub-agent, E13-4: `A(x)` with a mutable x for `const int n`)."""
+    chk.rule(rid, "every TypeChecker visitor of an object that binds template parameters to arguments (visitInstance, "
+                  "visitInstanceLine) hands the arguments in <instance>.mapping to the same tests: it type-checks them and "
+                  "reports a writing or non-computable one")
+    entries = [f for f in F.functions.values() if f.get("cls") == "UTAP::TypeChecker" and f.get("body") is not None and
+               (f.get("name") or "").startswith("visit") and f.get("params") and
+               any(t in (f["params"][0].get("ct") or f["params"][0].get("t") or "") for t in ("instance_t", "instance_line_t"))]
+    names = sorted({f["name"] for f in entries})
+    if "visitInstance" not in names or "visitInstanceLine" not in names:
+        raise AnalysisBroken("TypeChecker visitors of instance_t / instance_line_t not found (%s)" % names)
+    for name in names:
+        if name == "visitProcess":
+            continue            # a process is an instance that was checked as an instance; nothing is bound there
+        fn = G.normalized(_fn(F, name))
+        inst = fn["params"][0]["name"]
+        al = G.collect_aliases(fn)
+        look = [c for c in calls(fn["body"]) if c.get("name") in ("operator[]", "find", "at") and
+                (G.path_of(c.get("recv"), al) or ())[-1:] == ("mapping",) and c.get("args")]
+        tests = {c.get("name") for c in calls(fn["body"])}
+        need = {"checkExpression", CHANGES, COMPUTABLE}
+        ok = bool(look) and need <= tests
+        chk.ob(rid, "%s|arguments" % name, ok,
+               "TypeChecker::%s does not check the arguments bound in %s.mapping (%s): an argument on an LSC instance line "
+               "is bound to the template parameter like that of an instantiation, but `A(x)` with a mutable x for the "
+               "parameter `const int n` is accepted there" %
+               (name, inst, "no lookup in the mapping" if not look else "missing: %s" % ", ".join(sorted(need - tests))),
+               "%s:%s" % (fn["file"], fn["line"]), sample="%s checks the bound arguments" % name)
